@@ -25,6 +25,9 @@ func site(src []trsrc.Entity) string {
 	if len(ds) > 0 {
 		parts = append(parts, "duplicate@"+strings.Join(ds, "+"))
 	}
+	if dl := trsrc.DanglingSites(src); len(dl) > 0 && len(fs) == 0 {
+		parts = append(parts, "definition-deleted@"+strings.Join(dl, "+"))
+	}
 	if len(parts) == 0 {
 		return "no-fault"
 	}
